@@ -24,11 +24,58 @@ class SingleRootField(June2018ReleaseValidationRule):
     RULE_LINK = "https://graphql.github.io/graphql-spec/June2018/#sec-Single-root-field"
     RULE_NUMBER = "5.2.3.1"
 
+    def _collect_response_keys(
+        self, selection_set, fragments, response_keys, visited_fragments
+    ):
+        for selected in selection_set.selections:
+            if isinstance(selected, FragmentSpreadNode):
+                if selected.name.value in visited_fragments:
+                    continue
+                visited_fragments.add(selected.name.value)
+
+                frag = _find_fragment(fragments, selected.name.value)
+                if not frag:
+                    continue  # Handled by another validator
+
+                self._collect_response_keys(
+                    frag.selection_set,
+                    fragments,
+                    response_keys,
+                    visited_fragments,
+                )
+            elif isinstance(selected, InlineFragmentNode):
+                self._collect_response_keys(
+                    selected.selection_set,
+                    fragments,
+                    response_keys,
+                    visited_fragments,
+                )
+            else:
+                response_keys.add(
+                    selected.alias.value
+                    if selected.alias
+                    else selected.name.value
+                )
+
     def _validate_selection_set(
         self, operation, selection_set, fragments, path
     ):
-        nb_selections = len(selection_set.selections)
-        if nb_selections > 1:
+        response_keys = set()
+        self._collect_response_keys(
+            selection_set, fragments, response_keys, set()
+        )
+        if len(response_keys) > 1:
+            # report the selection set which introduces the extra fields
+            while len(selection_set.selections) == 1:
+                selected = selection_set.selections[0]
+                if isinstance(selected, FragmentSpreadNode):
+                    selected = _find_fragment(fragments, selected.name.value)
+                elif not isinstance(selected, InlineFragmentNode):
+                    break
+                if not selected:
+                    break
+                selection_set = selected.selection_set
+
             message = f"{f'Subcription {operation.name.value}' if operation.name else 'Anonymous Subscription'}"
             return [
                 graphql_error_from_nodes(
@@ -38,23 +85,6 @@ class SingleRootField(June2018ReleaseValidationRule):
                     extensions=self._extensions,
                 )
             ]
-
-        if nb_selections == 1:
-            selected = selection_set.selections[0]
-            if isinstance(selected, FragmentSpreadNode):
-                frag = _find_fragment(fragments, selected.name.value)
-
-                if not frag:
-                    return []  # Handled by another validator
-
-                return self._validate_selection_set(
-                    operation, frag.selection_set, fragments, path
-                )
-
-            if isinstance(selected, InlineFragmentNode):
-                return self._validate_selection_set(
-                    operation, selected.selection_set, fragments, path
-                )
 
         return []
 
